@@ -270,3 +270,14 @@ def maybe_cli_entry(script: dict, index: int, mod: int, k: int) -> dict:
         return script
     cfg["entry"] = "cli"
     return script
+
+
+def sync_timeouts(s: dict, rs: int, name: str, p: float = 0.4) -> None:
+    """A generous timeout label on sync (thread-pool) tasks: it never fires, the worker only notes that it cannot enforce it."""
+    from sim.rng import stream
+    r = stream(rs, name)
+    for m in s["messages"]:
+        ts = s["tasks"][m["task"]] if isinstance(m.get("task"), int) else {}
+        if m.get("kind", "valid") == "valid" and ts.get("sync") and m.get("timeout") is None and r.random() < p:
+            tot = max(sum(a.get("steps", [0])) for a in m.get("attempts", [{}])) if m.get("attempts") else 0
+            m["timeout"] = (tot + int(m.get("pool_delay_us", 0)) + 30_000_000) / 1e6
